@@ -21,6 +21,15 @@ CLAIMS = {
         note="trusts the effect table of str methods / import_module / getattr / issubclass / dict.get (probed on CPython 3.12) and the builtin exception hierarchy",
         technique="static analysis: typestate and exception-flow abstract interpretation of the resolver's AST",
     ),
+    "C18": dict(
+        text="Decides the structural necessary conditions of the JSON round trip: the writer tags every object with module+'.'+name "
+             "of its exact class (base to_json, registered serialisers, overrides keep super()), and reader and writer are mirror "
+             "images (shared constants, same dispatch order, elementwise recursion, one registry key, split at the last dot, "
+             "dispatch on the resolved class). Equality of reconstructed values (json's and user code's part) is not decided.",
+        ref="DESIGN.md §3 C18",
+        note="trusts json.dumps/loads on scalars and lists, and user _from_json to invert user to_json",
+        technique="static analysis: sibling cross-check of writer/reader ASTs with resolved names",
+    ),
 }
 
 _PENDING = "checker not built yet in this round (planned, see DESIGN.md)"
